@@ -587,6 +587,108 @@ def gen_inputs(key, cls, seeds, rng, tier, budget):
     return out, {'seeds': len(base), 'fixed_len': L, 'greedy': greedy}
 
 
+KS = {'U8': 1, 'U16': 2, 'U32': 4, 'U40': 5, 'U64': 8, 'S8': 1, 'S16': 2, 'S32': 4, 'S64': 8, 'F32': 4, 'F64': 8}
+TS_PAIRS = [(529378, 273878287), (1, 1), (0, 1), (0, 999999999), (1400000000, 1), (1400000000, 999999999), (4194303, 999999999), (8388607, 500000001),
+            (16777217, 3), (4294967293, 999999999), (4294967294, 999999999), (0, 0xFFFFFFFF), (0xFFFFFFFF, 0), (0xFFFFFFFF, 0xFFFFFFFF),
+            (123, 1000000000), (0, 3221225472), (7, 4294967294), (86400, 500000000), (604800, 250000000), (1, 999999999)]
+
+
+def field_values(it, rng, thorough):
+    """boundary wire values (unsigned, little-endian integer of the field's width) for one described field"""
+    w = KS[it['kind']]; bits = 8 * w; top = 1 << (bits - 1); full = (1 << bits) - 1
+    ad = it['adapter'][0]
+    if ad == 'ts':
+        vals = [s_ | (ns << 32) for s_, ns in TS_PAIRS]
+        vals += [rng.randrange(0, 1 << 31) | (rng.randrange(0, 1000000000) << 32) for _ in range(20 if thorough else 6)]
+        return vals
+    if ad == 'strict':
+        ms = [m % (1 << bits) for m in it['adapter'][1]]
+        non = [u for u in range(0, 1 << min(bits, 9)) if u not in ms][:3] + [full]
+        return ms + non
+    if ad == 'bool':
+        return [0, 1, 2, 0x80, 0xFF]
+    if ad == 'sentinel':
+        inv = it['adapter'][1] % (1 << bits)
+        return [inv, (inv - 1) % (1 << bits), (inv + 1) % (1 << bits), 0, 1, top, top - 1, full, rng.randrange(1 << bits)]
+    if ad == 'count':
+        return list(range(0, (9 if thorough else 4))) + [full, top]
+    if it['kind'] == 'F32':
+        return F32 + [rng.randrange(1 << 32)]
+    if it['kind'] == 'F64':
+        return F64 + [rng.randrange(1 << 64)]
+    vals = [0, 1, 2, 3, 0x7F, top - 1, top, full - 1, full, rng.randrange(1 << bits)]
+    if w == 1:
+        vals += list(range(4, 14)) + [0xFE]
+    return vals
+
+
+def gen_inputs_desc(cls, desc, rng, tier, budget, greedy):
+    """field-aware inputs from the generated description: every field gets its boundary values (sentinels, every
+    enum member and unknown values, 1 ns stamps and non-normalised stamps, NaN/inf/denormals, counts 0..N)"""
+    thorough = tier == 'thorough'
+    items = desc['items']
+    fixed = sum(KS[i['kind']] if i['t'] == 'field' else len(i['bytes']) if i['t'] == 'pad' else (i['len'][1] if i['t'] == 'bytes' and i['len'][0] == 'fixed' else 0) for i in items)
+    base = bytearray(fixed)
+    out, off, plan = [], 0, []
+    for it in items:
+        if it['t'] == 'field':
+            plan.append((off, it)); off += KS[it['kind']]
+        elif it['t'] == 'pad':
+            plan.append((off, it)); off += len(it['bytes'])
+        elif it['t'] == 'bytes' and it['len'][0] == 'fixed':
+            plan.append((off, it)); off += it['len'][1]
+    cands = []
+    for o, it in plan:
+        if it['t'] == 'field':
+            for v in field_values(it, rng, thorough):
+                cands.append((o, KS[it['kind']], v))
+        elif it['t'] == 'pad':
+            for v in (0xFF, 0x01):
+                cands.append((o, 1, v)); cands.append((o + len(it['bytes']) - 1, 1, v))
+        else:
+            cands.append((o, 1, 0xAB))
+    # round-robin over fields so that a small budget still touches every field
+    byfield = {}
+    for c in cands:
+        byfield.setdefault(c[0], []).append(c)
+    order = sorted(byfield)
+    depth = 0
+    sched = []
+    while any(len(byfield[k]) > depth for k in order):
+        sched += [byfield[k][depth] for k in order if len(byfield[k]) > depth]
+        depth += 1
+    # counted element fields: one element, each field's boundary values
+    elem = []
+    for it in items:
+        if it['t'] == 'counted':
+            cf = next(x for o, x in plan if x.get('name') == it['cnt'])
+            co = next(o for o, x in plan if x.get('name') == it['cnt'])
+            eo = 0
+            for b in it['body']:
+                if b['t'] == 'field':
+                    for v in field_values(b, rng, thorough)[:(12 if thorough else 5)]:
+                        elem.append((co, KS[cf['kind']], eo, KS[b['kind']], v, sum(KS[x['kind']] if x['t'] == 'field' else len(x['bytes']) for x in it['body'])))
+                    eo += KS[b['kind']]
+                else:
+                    eo += len(b['bytes'])
+    for (o, w, v) in sched:
+        if len(out) >= budget:
+            break
+        bb = bytearray(base)
+        bb[o:o + w] = int(v).to_bytes(w, 'little')
+        c = complete(cls, bytes(bb), rng, greedy)
+        out.append(c if c is not None else bytes(bb))
+    for (co, cw, eo, ew, v, esz) in elem:
+        k = rng.choice([1, 2, 3])
+        bb = bytearray(base)
+        bb[co:co + cw] = k.to_bytes(cw, 'little')
+        tail = bytearray(rng.randrange(256) if rng.random() < 0.3 else 0 for _ in range(k * esz))
+        j = rng.randrange(k)
+        tail[j * esz + eo:j * esz + eo + ew] = int(v).to_bytes(ew, 'little')
+        out.append(bytes(bb) + bytes(tail))
+    return out
+
+
 # ------------------------------------------------------------------------------------------------
 # shrinking
 # ------------------------------------------------------------------------------------------------
@@ -622,10 +724,19 @@ def run_key(key, seed, tier, corpus=()):
     if '[' in key:
         budget = max(12, budget // 6)
     offsets = OFFSETS_QUICK if not thorough else list(range(0, 17))
-    inputs, ginfo = gen_inputs(key, cls, seeds, rng, tier, budget)
-    inputs = [bytes.fromhex(h) for h in corpus] + inputs
+    desc = DESCS.get(key)
+    dinputs = []
+    if desc is not None:
+        try:
+            dinputs = gen_inputs_desc(cls, desc, rng, tier, (budget * 3) // 4, bool(desc.get('greedy')))
+        except Exception as e:
+            dinputs = []
+    inputs, ginfo = gen_inputs(key, cls, seeds, rng, tier, max(budget - len(dinputs), budget // 4))
+    ginfo['field_aware'] = len(dinputs)
+    seen_in = set()
+    inputs = [x for x in [bytes.fromhex(h) for h in corpus] + dinputs + inputs if not (x in seen_in or seen_in.add(x))]
     out = {'key': key, 'gen': ginfo, 'evals': 0, 'parsed': 0, 'parse_fail': {}, 'refusals': 0, 'laws_ok': 0,
-           'violations': {}, 'cases': [], 'greedy': False}
+           'violations': {}, 'cases': [], 'greedy': False, 'fails': []}
     # a registered sub-payload type whose canonical all-zero encoding does not parse at all
     if '[' in key and seeds:
         r0 = evaluate(key, cls, seeds[0], OFFSETS_QUICK)
@@ -637,6 +748,8 @@ def run_key(key, seed, tier, corpus=()):
         out['evals'] += 1
         if r['parse'] != 'ok':
             out['parse_fail'][r['parse']] = out['parse_fail'].get(r['parse'], 0) + 1
+            if len(out['fails']) < 80:
+                out['fails'].append({'hex': b.hex(), 'exc': r['parse']})
             continue
         out['parsed'] += 1
         out['greedy'] = out['greedy'] or r.get('greedy', False)
@@ -670,8 +783,14 @@ def run_key(key, seed, tier, corpus=()):
     return out
 
 
+DESCS = {}
+
+
 def main():
     cmd = sys.argv[1]
+    dp = os.environ.get('C01_DESC')
+    if dp and os.path.exists(dp):
+        DESCS.update(json.load(open(dp)).get('descriptions', {}))
     if cmd == 'list':
         print(json.dumps(list(class_table().keys())))
     elif cmd == 'run':
